@@ -32,7 +32,7 @@ def required_classes(tier):
     out = []
     for cv in CURVES:
         out += ["%s:ref-vs-opt" % cv, "%s:split-product" % cv, "%s:verifier-shape" % cv, "%s:finalexp" % cv]
-    out += ["opt:sparse-rescaled", "same-operands-both-flags", "bls12_381:exp_by_p", "opt:rescaled", "product:identity-factor", "fq12:zero", "fq12:sparse", "fq12:subfield", "fq12:random", "fq12:miller-output"]
+    out += ["threads:pairings", "opt:sparse-rescaled", "same-operands-both-flags", "bls12_381:exp_by_p", "opt:rescaled", "product:identity-factor", "fq12:zero", "fq12:sparse", "fq12:subfield", "fq12:random", "fq12:miller-output"]
     return out
 
 
@@ -201,6 +201,10 @@ def run(rec):
                     chk("B-c12.split", s5 == "ok" and tup(fe2, S.p) != F12.one, "verifier-shape", "split form gives the unit for a forged signature", sk=sk, h=h)
             else:
                 chk("B-c12.split", False, "verifier-shape", "pairing raised")
+    if (role == 3 and rec.shard in (6, 7)) or not quick:
+        threads_phase(rec)
+    else:
+        rec.case("threads:pairings", None, nontrivial=False)
     # ---------------------------------------------------------------- (c) final exponentiation / Frobenius on arbitrary elements
     if role == 3 or role == 2:
         e_final = (S.p ** 12 - 1) // S.r
@@ -229,6 +233,25 @@ def run(rec):
             if rfe is not None and kind in ("random", "miller-output", "sparse"):
                 s4, v = call(rfe, cr.FQ12(list(t)))
                 chk("B-c12.finalexp", s4 == "ok" and tup(v, S.p) == F12.pow(t, e_final), "finalexp", "reference final_exponentiate(x) != x^((p^12-1)/r)", x=t)
+
+
+def threads_phase(rec):
+    """Pairings of both optimized modules (and final exponentiations) while other threads compute pairings."""
+    from .common import threaded_reprobe
+    rng = rec.rng
+    thunks = []
+    for cv in CURVES:
+        S = params.suite(cv)
+        optk = "opt." + cv
+        co, po, _ = CG.lib(optk)
+        for j in range(2):
+            a, b = rng.randrange(1, S.r), rng.randrange(1, S.r)
+            Pt, Q = CG.to_lib(optk, S.E1.mul(S.g1, a), 1, rng), CG.to_lib(optk, S.E2.mul(S.g2, b), 2, rng)
+            fe = bool(j)
+            thunks.append(("%s.pairing[final_exponentiate=%s]" % (optk, fe), lambda po=po, Q=Q, Pt=Pt, fe=fe, p=S.p: tup(po.pairing(Q, Pt, fe), p)))
+        x = co.FQ12([rng.randrange(S.p) for _ in range(12)])
+        thunks.append(("%s.final_exponentiate" % optk, lambda po=po, x=x, p=S.p: tup(po.final_exponentiate(x), p)))
+    threaded_reprobe(rec, "pairings", thunks, threads=3, rounds=1 if rec.tier == "quick" else 3)
 
 
 def replay(rec, case):
